@@ -135,6 +135,10 @@ type Range struct {
 	Path, Text string
 }
 
+func (r Range) GetRange() Range {
+	return r
+}
+
 func (r Range) Extract() string {
 	return r.Text[r.Start:r.End]
 }
